@@ -86,6 +86,7 @@ func (eb *errorBuffer) trim(by int) {
 }
 
 type peerState struct {
+	mu      sync.Mutex // Serialises addResult per peer: the buffer is read and trimmed in several steps.
 	failing atomic.Bool
 	buffer  errorBuffer
 }
@@ -107,6 +108,9 @@ func (s *Sender) addResult(ctx context.Context, peerID peer.ID, err error) {
 			return
 		}
 	}
+
+	state.mu.Lock()
+	defer state.mu.Unlock()
 
 	state.buffer.add(err)
 
